@@ -12,8 +12,11 @@ MODULES = ['Netpoll.Props.C16']
 MANIFEST = dict(
     text='Lean 4 theorems: for every source/sink script and every sequence of Reader/Writer calls the adapter model (zcReader, zcWriter, ioReader, ioWriter over the C01 spec queue) '
          'delivers exactly the source stream once and in order, surfaces the source error, and hands the sink exactly the flushed stream across Flushes. '
-         'The model is tied to nocopy_readwriter.go by a differential run on scripted io.Reader/io.Writer behaviours (short, zero-byte, negative, data+error, short writes); '
-         'a stream oracle judges the replies of all four adapters (zcReader, zcWriter, NewIOReader / NewIOWriter over a LinkBuffer, NewIOWriter over NewWriter over a short-writing sink). '
+         'The reader model has the two loops of the code (waitRead re-arming a fill that makes at most maxReadCycle source reads, the bound regenerated from the source); a theorem shows the bound is invisible to the caller for every script. '
+         'The model is tied to nocopy_readwriter.go by a differential run on scripted io.Reader/io.Writer behaviours (short, zero-byte, negative, data+error, short writes; one reader sequence in five over a trickling source: '
+         'runs of 0..3-byte reads and zero-byte bursts longer than one fill); '
+         'a stream oracle judges the replies of all four adapters (zcReader, zcWriter, NewIOReader / NewIOWriter over a LinkBuffer, NewIOWriter over NewWriter over a short-writing sink); for the reader it also demands that a call with a valid count '
+         'fails only with the error (io.EOF as ErrEOF) of the last source read made during that call - never with the buffer\'s own error while the source has not erred. '
          'The caller of an io.Writer reuses (overwrites) its slice as soon as Write has returned, as the io.Writer contract allows; every zero-copy result of the reader adapter is kept and re-compared after every later call '
          'until Release, with the harness allocator poisoning freed blocks (long streams read piecewise with rare Release included).',
     note='Rests on the C01 refinement (LinkBuffer behaves as the spec queue inside Contract) and on its tie. Correspondence is sampling. '
@@ -29,13 +32,18 @@ def fnv(bs):
 
 def oracle(seq_ops, impl):
     """stream oracle applied to the implementation's replies of one sequence; returns index of first violation or None"""
-    kind = None; dc = 0; pending = []; submitted = []; lastL = 0
+    kind = None; dc = 0; pending = []; submitted = []; lastL = 0; script = []; lastLeft = 0
     for i, (o, r) in enumerate(zip(seq_ops, impl)):
         t = o.split()
         if t[0] == 'seq': continue
         if r == 'panic': return i, 'panic inside the adapter contract'
         if r.startswith('HELD-CHANGED'): return i, 'zero-copy ' + r[13:]
-        if len(t) >= 3 and t[2] == 'new': kind = t[0]; continue
+        if len(t) >= 3 and t[2] == 'new':
+            kind = t[0]
+            if kind == 'zr':
+                script = [] if t[3] == '-' else [(int(x.split(':')[0]), x.split(':')[1]) for x in t[3].split(',')]
+                lastLeft = len(script)
+            continue
         res, _, dump = r.partition(' ## ')
         f = dict(x.split('=') for x in dump.split() if '=' in x)
         if kind == 'zr':
@@ -45,6 +53,30 @@ def oracle(seq_ops, impl):
                 need = 1 if opn == 'rbyte' else int(t[3])
                 if need <= lastL:
                     return i, '%s(%d) failed with "%s" although %d bytes the source produced are buffered' % (opn, need, res, lastL)
+            # the source's error is what is surfaced: a waiting call with a valid count fails only with the error (io.EOF as
+            # ErrEOF) of the LAST source read it made - never with the buffer's own "not enough data" while the source has
+            # returned no error (the bytes it goes on producing must become readable), and never with an error the source
+            # did not return during this call
+            if res.startswith('fail') and opn in ('next', 'peek', 'skip', 'rbin', 'rstr', 'rbyte') and 'left' in f:
+                need = 1 if opn == 'rbyte' else int(t[3])
+                left = int(f['left'])
+                used = script[len(script) - lastLeft:len(script) - left]
+                cls = res.split()[1]
+                if need >= 0:
+                    why = None
+                    if cls == 'buf':
+                        why = 'the buffer\'s own error'
+                    elif used:
+                        k, e = used[-1]
+                        want = {'e': 'eof', 'x': 'src'}.get(e, 'negative' if k < 0 else None)
+                        if left == 0 and want is None: want = 'eof'      # the exhausted script answers (0, io.EOF) and consumes no entry
+                        if cls != want: why = 'error class "%s"' % cls
+                    elif not (left == 0 and cls == 'eof'):
+                        why = 'error class "%s"' % cls
+                    if why:
+                        return i, '%s(%d) failed with %s, which the source did not return during the call (%d source reads%s: %s; %d bytes buffered after it)' % (
+                            opn, need, why, len(used), ', then the exhausted script' if left == 0 else '', ','.join('%d:%s' % x for x in used[-20:]) or '-', int(f.get('L', 0)))
+            if 'left' in f: lastLeft = int(f['left'])
             if res.startswith('ok b:') and opn in ('next', 'rbin', 'rstr', 'rbyte', 'until'):
                 _, ln, h = res.split(':'); ln = int(ln)
                 want = fnv([gen_byte(5, dc + k) for k in range(ln)])
@@ -179,7 +211,7 @@ def run(rep):
         for k, v in r['hist'].items(): hist[k] = hist.get(k, 0) + v
     rep.cov.update(evaluations=n, distinct_nontrivial=len(finals),
                    rule='one adapter per sequence (zcReader / zcWriter / ioReader / ioWriter over a LinkBuffer / ioWriter over zcWriter) behind a scripted source or sink (per-call counts 0..>4KB, negative, data with error, short writes; '
-                        'one reader sequence in four over a long stream with rare Release); the io.Writer caller overwrites its slice after every Write; zero-copy results of the reader are re-compared until Release (poisoning allocator); '
+                        'one reader sequence in four over a long stream with rare Release, one in five over a trickling source with more tiny / zero-byte reads than one fill makes); the io.Writer caller overwrites its slice after every Write; zero-copy results of the reader are re-compared until Release (poisoning allocator); '
                         'random Reader/Writer calls; every reply compared with the Lean adapter model and judged by a stream oracle; distinct_nontrivial = distinct final reply lines',
                    samples=results[0]['samples'], op_histogram=hist, traces_validated_against_impl=n)
     rep.assumptions += ['C01 refinement: inside Contract a LinkBuffer behaves as the spec queue (checked by ./check C01)',
